@@ -173,7 +173,7 @@ def c05(pid, tier, t0):
     return nv.finish(pid, tier, t0, res, {
         "rule": "(i) all sequences of <= depth tokens over the vi token alphabet (motions, operators with and without motion, counts, register prefixes, inserts with editing keys, "
                 "repeat/macro/undo, scrolls, window and buffer commands, a menu of well-formed/truncated/nonsensical ex lines incl. 510..700-byte lines and nested :g) and over the ex-line "
-                "alphabet, from configurations {empty, ASCII, 30 lines, UTF-8 mix with wide/combining/RTL, 300-char line, 300-letter word, 130 two-byte letters, 280-byte path name} "
+                "alphabet, from configurations {empty, ASCII, 30 lines, UTF-8 mix with wide/combining/RTL, 300-char line, 300-letter word, 130 two-byte letters, 280-byte path name, 200 blanks of indentation}; tokens include path names of 255..512 bytes with the commands that expand % and #, and streams that open 15..19 files "
                 "x windows {24x80, 2x2, 3x10, 8x40} x option sets (every single token from every configuration; depth 2 from 5 configurations in the quick tier, from all but the long-word x small-window ones in the thorough tier); "
                 "(ii) 8 base sessions with every single (thorough: also double) token substitution/deletion/insertion; distinct_nontrivial = complete executions that ran to the quit",
         "depth_bound": 2 if tier == "quick" else 3,
